@@ -5,6 +5,7 @@ import (
 	"net"
 	"time"
 
+	"github.com/fiorix/go-diameter/v4/diam/datatype"
 	"github.com/ishidawataru/sctp"
 )
 
@@ -70,6 +71,8 @@ func (msc *SCTPConn) SetWriteDeadline(t time.Time) error { return nil }
 func zzC19_demux() {
 	d := vAbstractDict()
 	zzKnownCommand(d, 0, 257)
+	da, derr := d.FindAVPWithVendor(0, uint32(1), 0)
+	vAssume(derr == nil && da.Data.Type == datatype.OctetStringType)
 	ns := vLen("streams", 1, vParam("S", 2))
 	seqs := make([][]byte, ns)
 	ids := make([][]uint32, ns)
@@ -77,7 +80,20 @@ func zzC19_demux() {
 		nm := vLen("msgs", 1, 2)
 		for k := 0; k < nm; k++ {
 			id := vU32("e2e")
-			mb := zzPlainMessage(257, 0x80, 0, uint32(1000*(s+1)+k))
+			// messages of odd streams are bare headers (20 bytes), those of even streams carry one opaque
+			// 24-byte AVP (44 bytes): a whole short message then fits into one read of a long one's body
+			var body []byte
+			if s%2 == 1 {
+				body = make([]byte, 24)
+				body[3] = 1
+				body[7] = 24
+				for j := 8; j < 24; j++ {
+					body[j] = byte(16*(s+1) + k)
+				}
+			}
+			mb := zzMessageBytes(body, 0x80, 257, 0)
+			hb := uint32(1000*(s+1) + k)
+			mb[12], mb[13], mb[14], mb[15] = byte(hb>>24), byte(hb>>16), byte(hb>>8), byte(hb)
 			mb[16], mb[17], mb[18], mb[19] = byte(id>>24), byte(id>>16), byte(id>>8), byte(id)
 			seqs[s] = append(seqs[s], mb...)
 			ids[s] = append(ids[s], id)
@@ -149,6 +165,14 @@ func zzC19_demux() {
 		vObserve("stream", uint64(st))
 		vObserve("hbh", uint64(m.Header.HopByHopID))
 		vAssert(m.Header.HopByHopID == uint32(1000*(s+1)+k) && m.Header.EndToEndID == ids[s][k], "each message is assembled from the bytes of one stream, in that stream's order")
+		if s%2 == 1 {
+			vAssert(len(m.AVP) == 1, "the long message's AVP is there")
+			if len(m.AVP) == 1 {
+				for _, x := range m.AVP[0].Data.Serialize() {
+					vAssert(x == byte(16*(s+1)+k), "and its payload comes from its own stream")
+				}
+			}
+		}
 		got[s] = append(got[s], m.Header.EndToEndID)
 		// the reply goes to the stream the request arrived on
 		nw := len(be.writes)
